@@ -107,7 +107,7 @@ def prove(tier, seed):
     from vt.pyvc.termproofs import merge, prove_terms
 
     a = prove_index(tier, seed)
-    b = prove_terms(["purity", "l1_norm_coherence"], [("purity", "np.linalg.matrix_power(rho, 2)", "np.linalg.matrix_power(rho, 3)"), ("l1_norm_coherence", "- np.trace(rho)", "- 1")], tier, "c14t", replay_clause="term.formula14")
+    b = prove_terms(["purity", "l1_norm_coherence", "negativity", "log_negativity"], [("purity", "np.linalg.matrix_power(rho, 2)", "np.linalg.matrix_power(rho, 3)"), ("l1_norm_coherence", "- np.trace(rho)", "- 1"), ("negativity", 'ord="nuc") - 1) / 2', 'ord="nuc") - 1)'), ("log_negativity", "partial_transpose(rho, [1], dim)", "partial_transpose(rho, [0, 1], dim)")], "thorough", "c14t", replay_clause="term.formula14")
     return merge(a, b)
 
 
@@ -186,7 +186,22 @@ def term_formula14(p):
         g = rng.standard_normal((d, d)) + 1j * rng.standard_normal((d, d))
         rho = g @ g.conj().T
         rho /= np.trace(rho)
-        if p["fn"] == "purity":
+        if p["fn"] in ("negativity", "log_negativity"):
+            import toqito.state_props as sprops
+
+            if d == 3:
+                continue
+            da = 2
+            db = 2 if d == 2 else 3
+            n = da * db
+            g2 = rng.standard_normal((n, n)) + 1j * rng.standard_normal((n, n))
+            r2 = g2 @ g2.conj().T
+            r2 /= np.trace(r2)
+            pt = r2.reshape(da, db, da, db).transpose(0, 3, 2, 1).reshape(n, n)
+            tn = float(np.sum(np.linalg.svd(pt, compute_uv=False)))
+            got = getattr(sprops, p["fn"])(r2, [da, db])
+            exp = (tn - 1) / 2 if p["fn"] == "negativity" else float(np.log2(tn))
+        elif p["fn"] == "purity":
             from toqito.state_props import purity
 
             got, exp = purity(rho), float(np.real(np.trace(rho @ rho)))
